@@ -5,12 +5,14 @@ round, every worker through every barrier of every round, every worker exited)."
 PROP = "C05"
 AREAS = []
 THEOREMS = ["inv_reachable", "no_lost_wakeup", "deadlock_free", "oversize_blocks_old_rule_refuted",
-            "measure_decreases", "terminates", "run_reaches_final", "final_complete", "enabledb_sound"]
+            "measure_decreases", "terminates", "run_reaches_final", "final_complete", "enabledb_sound", "stuckb_sound"]
 RULE = ("trace validation + stuck detection: each case (scheduler seed, 1..16 threads, queue capacity from 0 / below one "
         "contig to 2^64-1, mode s = concatenated (token block every <pack> contigs) or m, script of push / drain / "
         "sync_and_flush calls; upper-case mode = wait for finalize() to return) is run on the REAL "
         "StreamingQueueCompressor in a forked child under the H1 perturbation scheduler with a watchdog (no record for "
-        "20 s = HANG); the H2/H3 log is replayed through the extracted Protocol.step: every record must be an enabled "
+        "60 s = HANG, >= 20x the largest gap seen in 4000 finished runs on the loaded machine; after two hung runs a "
+        "shard skips its remaining cases); a hung run is replayed too and the model says whether the state is stuck "
+        "(under the current push rule and under the pre-fix rule); the H2/H3 log is replayed through the extracted Protocol.step: every record must be an enabled "
         "transition (or a check on the model state that holds: admission numbers, sizes, item taken is maximal for "
         "ContigTask::cmp, round composition = the model's raw buffers), and the last model state must be final with "
         "rounds = token blocks and every contig segmented. script shapes: the CLI's multi-file shape (reference contigs, "
@@ -201,7 +203,7 @@ def model_cases(cases, impl_lines):
     for c, i in zip(cases, impl_lines):
         st, fields, evs = _split(i)
         if st not in ("DONE", "JOINED", "HANG") or evs is None:
-            out.append(c + " || NOTRACE")
+            out.append(c + " || " + ("SKIP" if st == "SKIP" else "NOTRACE"))
             continue
         thr = _script(c)[0]
         t2w, err = _tidmap(evs, thr)
@@ -218,6 +220,8 @@ def model_cases(cases, impl_lines):
 
 
 def canon(case, line):
+    if line.startswith("SKIP") or line.startswith("NOTRACE SKIP"):
+        return "SKIP"
     if line.startswith("DONE ") or line.startswith("JOINED ") or line.startswith("OK final"):
         return "OK final"
     if line.startswith("HANG"):
@@ -240,6 +244,8 @@ def nontrivial(case, impl):
 def oracle(case, impl):
     """the property itself, judged on the real run's log without the Coq model"""
     st, fields, evs = _split(impl)
+    if st == "SKIP":
+        return None          # skipped after two hung runs in the same shard (those are reported)
     if st == "HANG":
         return "the pipeline hung: no record for %s ms" % (fields[0] if fields else "?")
     if st not in ("DONE", "JOINED"):
